@@ -331,15 +331,16 @@ Advance ==
   /\ act' = [name |-> "Advance", obs |-> Obs("ok", <<>>, <<>>)]
   /\ UNCHANGED <<grp, inp, owner, ss, closed, nh, pull, nticks>>
 
-\* server shutdown (ServerManager.Dispose): every group is disposed - sessions closed, the input's
-\* pipeline finalised (delIn) - and nothing is notified
+\* server shutdown (ServerManager.Dispose): every group is disposed - sessions closed (an attached relay
+\* pull session too: its own goroutine then reports the end of the pull), the input's pipeline finalised
+\* (delIn) - and nothing else is notified
 Shutdown ==
   /\ ShutdownEnabled /\ ~down
   /\ down' = TRUE
   /\ inp' = "" /\ owner' = ""
   /\ closed' = [x \in Sessions |-> closed[x] \/ (ss[x] = "in" /\ x \notin CustPubs)]
   /\ pull' = [pull EXCEPT !.att = FALSE, !.flying = FALSE]
-  /\ act' = [name |-> "Shutdown", obs |-> Obs("ok", <<>>, IF grp THEN DelInEv ELSE <<>>)]
+  /\ act' = [name |-> "Shutdown", obs |-> Obs("ok", IF pull.att THEN EndNotif ELSE <<>>, IF grp THEN DelInEv ELSE <<>>)]
   /\ push' = StopPush(push) /\ patt' = patt
   /\ UNCHANGED <<grp, ss, nh, clock, nticks>>
 
